@@ -7,7 +7,7 @@ P="/verif/seeded/$SID/patch.diff"
 cd /repo || exit 2
 if [ -n "$(git status --porcelain --untracked-files=no)" ]; then echo "/repo has uncommitted changes"; exit 2; fi
 git apply "$P" || { echo "patch does not apply"; exit 2; }
-trap 'git -C /repo checkout -- . ' EXIT
+trap 'git -C /repo checkout -- . ; git -C /verif checkout -- evidence' EXIT
 for ID in "$@"; do
   S=$(date +%s)
   VERIF_SEED="${VERIF_SEED:-1}" /verif/bin/check "$ID" "${TIER:-quick}" > "/tmp/p/seeded_${SID}_$ID.log" 2>&1; RC=$?
